@@ -96,6 +96,7 @@ type Config struct {
 
 // Schedule runs the graph of steps.
 func (sc *Scheduler) Schedule(ctx context.Context, g *ExecutionGraph, done chan *Node) error {
+	sc.pause = verifPause(sc.pause)
 	if err := sc.setup(ctx); err != nil {
 		return err
 	}
@@ -111,17 +112,20 @@ func (sc *Scheduler) Schedule(ctx context.Context, g *ExecutionGraph, done chan 
 	}
 
 	for !sc.isFinished(g) {
+		verifPoint("loop.top", nil)
 		if sc.isCanceled() {
 			break
 		}
 	NodesIteration:
 		for _, node := range g.Nodes() {
+			verifPoint("loop.visit", node)
 			if node.State().Status != NodeStatusNone || !isReady(g, node) {
 				continue NodesIteration
 			}
 			if sc.isCanceled() {
 				break NodesIteration
 			}
+			verifPoint("loop.launch", node)
 			if sc.maxActiveRuns > 0 && sc.runningCount(g) >= sc.maxActiveRuns {
 				continue NodesIteration
 			}
@@ -140,11 +144,13 @@ func (sc *Scheduler) Schedule(ctx context.Context, g *ExecutionGraph, done chan 
 			sc.logger.Info("Step execution started", "step", node.data.Step.Name)
 			node.setStatus(NodeStatusRunning)
 			go func(node *Node) {
+				defer verifPoint("worker.exit", node)
 				defer func() {
 					node.finish()
 					wg.Done()
 				}()
 
+				verifPoint("worker.begin", node)
 				setupSucceed := true
 				if err := sc.setupNode(node); err != nil {
 					setupSucceed = false
@@ -154,10 +160,14 @@ func (sc *Scheduler) Schedule(ctx context.Context, g *ExecutionGraph, done chan 
 				defer func() {
 					_ = sc.teardownNode(node)
 				}()
+				defer verifPoint("worker.tail", node)
+				verifPoint("worker.loopchk", node)
 
 			ExecRepeat:
 				for setupSucceed && !sc.isCanceled() {
+					verifPoint("worker.exec", node)
 					execErr := sc.execNode(ctx, node)
+					verifPoint("worker.post", node)
 					if execErr != nil {
 						status := node.State().Status
 						switch {
@@ -183,6 +193,7 @@ func (sc *Scheduler) Schedule(ctx context.Context, g *ExecutionGraph, done chan 
 								"retry", node.getRetryCount(),
 							)
 							time.Sleep(node.data.Step.RetryPolicy.Interval)
+							verifPoint("worker.retrywake", node)
 							node.setRetriedAt(time.Now())
 							node.setStatus(NodeStatusNone)
 						default:
@@ -225,6 +236,7 @@ func (sc *Scheduler) Schedule(ctx context.Context, g *ExecutionGraph, done chan 
 		}
 		time.Sleep(sc.pause)
 	}
+	verifPoint("loop.wgwait", nil)
 	wg.Wait()
 
 	var handlers []dag.HandlerType
@@ -242,6 +254,7 @@ func (sc *Scheduler) Schedule(ctx context.Context, g *ExecutionGraph, done chan 
 	for _, h := range handlers {
 		if n := sc.handlers[h]; n != nil {
 			sc.logger.Info("Handler execution started", "handler", n.data.Step.Name)
+			verifPoint("handler", n)
 
 			n.mu.Lock()
 			n.data.Step.OutputVariables = g.outputVariables
@@ -294,7 +307,9 @@ func (sc *Scheduler) Signal(
 	if !sc.isCanceled() {
 		sc.setCanceled()
 	}
+	verifPoint("signal.flagged", nil)
 	for _, node := range g.Nodes() {
+		verifPoint("signal.node", node)
 		// for a repetitive task, we'll wait for the job to finish
 		// until time reaches max wait time
 		if !node.data.Step.RepeatPolicy.Repeat {
